@@ -458,6 +458,10 @@ inductive Op where
   | set (rq : SetReq)
   | del (k : String)
   | read (q : Query)
+  /-- `IncrementInt64(key, delta)` with `ExpiredAt = expire` in both metadata requests (0: none) -/
+  | inc (k : String) (delta : Int) (expire : Int)
+  /-- the swamp is closed and summoned again from disk -/
+  | reload
   deriving Repr
 
 def setPair (p : Slot → Pair) (s : Slot) (v : Pair) : Slot → Pair :=
@@ -483,6 +487,25 @@ def stepDel (st : St) (k : String) : St :=
     if store'.isEmpty then St.init
     else { store := store', pairs := fun ps => (st.pairs ps).erase k }
 
+/-- `IncrementInt64` (non-zero increment): a missing key (or void content) starts from 0; int64 content is incremented in
+    place and saved; any other content type is an error and nothing changes -/
+def stepInc (cfg : Cfg) (st : St) (k : String) (delta expire : Int) : St :=
+  -- the gateway refuses `IncrementBy == 0`
+  if delta == 0 then st else
+  match findKey k st.store with
+  | none => stepSet cfg st { key := k, ct := .i64, val := delta, created := 0, updated := 0, expire := expire }
+  | some o =>
+    if o.ct == .i64 then
+      stepSet cfg st { key := k, ct := .i64, val := o.val + delta, created := 0, updated := 0, expire := expire }
+    else if o.ct == .void then
+      stepSet cfg st { key := k, ct := .i64, val := delta, created := 0, updated := 0, expire := expire }
+    else st
+
+/-- close + summon: every beacon is gone (they live in memory only) and the treasures are fresh
+    objects, so their `…Changed` flags are clear -/
+def stepReload (st : St) : St :=
+  { store := st.store.map (fun r => { r with expFlag := false }), pairs := fun _ => {} }
+
 /-- the build step of a read -/
 def stepBuild (cfg : Cfg) (st : St) (q : Query) : St :=
   if st.store.isEmpty then st else
@@ -507,6 +530,8 @@ def step (cfg : Cfg) (st : St) : Op → St
   | .set rq => stepSet cfg st rq
   | .del k => stepDel st k
   | .read q => stepBuild cfg st q
+  | .inc k d e => stepInc cfg st k d e
+  | .reload => stepReload st
 
 def run (cfg : Cfg) (h : List Op) : St := h.foldl (step cfg) St.init
 
